@@ -730,6 +730,73 @@ func c07ValSites() []c07ValSite {
 			w.job.set("runs-on", c07Q(c07S("ubuntu-latest"), t))
 			return one(t, "label \"windows-latest\" conflicts with label \"ubuntu-latest\"")
 		}},
+		// ---- labels that live in the matrix and are reached THROUGH runs-on: ${{ matrix.<row> }}; the
+		// report must be at the label in the matrix, not at runs-on and not at the key of the entry
+		{name: "matrix-label.row", kind: "runner-label-via-matrix", styles: "pad", flowOK: true, build: func(w *c07WF, rr *Rand) (*c07Node, []string, []string) {
+			row := rr.Pick([]string{"os", "runner", "platform_1"})
+			conflict := c07RunsOnViaMatrix(w, rr, row)
+			t := c07S("")
+			var items []*c07Node
+			n, at := rr.Intn(3), rr.Intn(3)
+			for i := 0; i <= n; i++ {
+				if i == at%(n+1) {
+					items = append(items, t)
+				} else {
+					items = append(items, c07S([]string{"ubuntu-latest", "linux", "x64"}[i]))
+				}
+			}
+			w.job.sub("strategy").sub("matrix").set(row, c07Q(items...))
+			return one(t, c07ViaMatrixLabel(t, rr, conflict))
+		}},
+		{name: "matrix-label.include", kind: "runner-label-via-matrix", styles: "pad", flowOK: true, build: func(w *c07WF, rr *Rand) (*c07Node, []string, []string) {
+			row := rr.Pick([]string{"os", "runner", "platform_1"})
+			conflict := c07RunsOnViaMatrix(w, rr, row)
+			m := w.job.sub("strategy").sub("matrix")
+			withRow := rr.Bool()
+			if withRow {
+				m.set(row, c07QS("ubuntu-latest", "linux"))
+			} else {
+				m.set("node", c07QS("18", "20"))
+			}
+			t := c07S("")
+			it := c07M()
+			// the probed key first / in the middle / last
+			switch rr.Intn(3) {
+			case 0:
+				it.set(row, t)
+				it.str("node", "20")
+				it.str("experimental", "yes")
+			case 1:
+				it.str("node", "20")
+				it.set(row, t)
+				it.str("experimental", "yes")
+			default:
+				it.str("node", "20")
+				it.str("experimental", "yes")
+				it.set(row, t)
+			}
+			incl := c07Q(it)
+			if rr.Bool() {
+				other := c07M()
+				other.str("node", "22")
+				other.str(row, "ubuntu-latest")
+				if rr.Bool() {
+					incl = c07Q(other, it)
+				} else {
+					incl = c07Q(it, other)
+				}
+			}
+			m.set("include", incl)
+			return one(t, c07ViaMatrixLabel(t, rr, conflict))
+		}},
+		{name: "uses.missing-required-input", kind: "action-missing-input", styles: "pad", flowOK: false, build: func(w *c07WF, rr *Rand) (*c07Node, []string, []string) {
+			// the diagnostic is caused by an absent key of "with" and reported at the uses value
+			s := c07M()
+			t := s.str("uses", "actions/cache@v4")
+			s.sub("with").str("path", "node_modules")
+			w.steps.items = append(w.steps.items, s)
+			return one(t, "missing input \"key\" which is required by action")
+		}},
 		{name: "permission.value", kind: "permission-value", styles: "pad", flowOK: true, build: func(w *c07WF, rr *Rand) (*c07Node, []string, []string) {
 			m := w.root
 			if rr.Bool() {
@@ -929,6 +996,38 @@ func c07ValSites() []c07ValSite {
 			return one(w.job.sub("strategy").sub("matrix").str("os", rr.Pick([]string{"${{ 'x' }}", "${{ github.sha }}", "${{ 1 }}"})), "type of expression at \"matrix row\" must be array")
 		}},
 	}
+}
+
+// c07RunsOnViaMatrix writes runs-on: ${{ matrix.<row> }} as a scalar or as an element of a label
+// sequence. It reports whether the sequence holds a GitHub-hosted Linux label, so that a Windows
+// label reached through the matrix conflicts with it.
+func c07RunsOnViaMatrix(w *c07WF, rr *Rand, row string) (conflict bool) {
+	ref := "${{ matrix." + row + " }}"
+	if rr.Intn(3) == 0 {
+		ref = "${{matrix." + row + "}}"
+	}
+	switch rr.Intn(4) {
+	case 0:
+		w.job.set("runs-on", c07S(ref))
+	case 1:
+		w.job.set("runs-on", c07SQ(ref, c07Double))
+	case 2:
+		w.job.set("runs-on", c07Q(c07S("self-hosted"), c07SQ(ref, c07Single)))
+	default:
+		w.job.set("runs-on", c07Q(c07S("ubuntu-latest"), c07SQ(ref, c07Double)))
+		return true
+	}
+	return false
+}
+
+// c07ViaMatrixLabel fills in the label text and returns the expected message.
+func c07ViaMatrixLabel(t *c07Node, rr *Rand, conflict bool) string {
+	if conflict && rr.Bool() {
+		t.val = rr.Pick([]string{"windows-latest", "macos-latest", "windows-2022"})
+		return "label \"" + t.val + "\" conflicts with label \"ubuntu-latest\""
+	}
+	t.val = rr.Pick([]string{"linux-latezt", "ubuntu-99.04", "windows-3.11", "my big runner"})
+	return "label \"" + t.val + "\" is unknown"
 }
 
 // ---------------------------------------------------------------------------
